@@ -29,8 +29,8 @@ for l in src:
     m=re.match(r'\(define-fun (tm_\d+) \(\) \S+ (.*)\)$',l)
     if m: defs[m.group(1)]=m.group(2)
 def expand(s,depth=0):
-    if depth>5: return s
+    if depth>9: return s
     return re.sub(r'tm_\d+',lambda m: '('+expand(defs.get(m.group(0),m.group(0)),depth+1)+')' if m.group(0) in defs else m.group(0),s)
 for c in core:
-    print(c, expand(names[c])[:700]); print()
+    print(c, expand(names[c])[:6000]); print()
 PY
